@@ -174,7 +174,7 @@ func (r *vfC02PskRun) run() {
 			default:
 				b = avail + r.pick.Pick([]int{1, 24, 64, 4096}, r.w.Walk, si)
 			}
-			if left > 0 && b > avail-left {
+			if left > 0 && b > avail-left && op.S("glitch") != "temperr" {
 				b = avail - left // the model keeps `left` units unread: never let the real reader run ahead of it
 			}
 			if b < 0 {
